@@ -196,6 +196,22 @@ def gen_case(rng: Rng, max_routers: int = 3) -> dict:
                             node["routes"].append({"addr": _ip(lan["net"], 0), "mask": _mask(lan["p"]), "nh": transits[k - 1][0], "metric": 0})
     notes["routing"] = routing
     hosts = [i for i, n in enumerate(t.nodes) if n["kind"] == "host"]
+    via_host = []
+    if nr >= 1 and hosts and rng.chance(1, 6):
+        # misconfiguration: a static route whose next hop is a HOST address; frames for 172.31/16 are sent to that host's MAC
+        lan = rng.choice([l for l in t.lans if l["router"] is not None and l["hosts"]])
+        h = rng.choice(lan["hosts"])
+        t.nodes[lan["router"]]["routes"].append({"addr": "172.31.0.0", "mask": "255.255.0.0", "nh": t.nodes[h]["ip"], "metric": 0})
+        via_host = [{"op": "ping", "src": x, "dst": "172.31.0.5", "count": 1} for x in hosts[:3]]
+        notes["via_host"] = True
+    if len(hosts) >= 2 and rng.chance(1, 8):
+        # misconfiguration: a host whose default gateway is another host on its LAN
+        lan = rng.choice([l for l in t.lans if len(l["hosts"]) >= 2] or [None])
+        if lan:
+            a, b = lan["hosts"][0], lan["hosts"][1]
+            t.nodes[a]["gw"] = t.nodes[b]["ip"]
+            via_host += [{"op": "ping", "src": a, "dst": "172.30.0.9", "count": 1}, {"op": "ping", "src": a, "dst": "8.8.4.4", "count": 2}]
+            notes["gw_is_host"] = True
     ops: List[dict] = []
     pairs = [(a, b) for a in hosts for b in hosts if a != b]
     pairs = rng.shuffle(pairs)
@@ -245,11 +261,12 @@ def gen_case(rng: Rng, max_routers: int = 3) -> dict:
         if pairs:
             a, b = rng.choice(pairs)
             extra.append({"op": "ping", "src": a, "dst": t.nodes[b]["ip"], "count": rng.choice([1, 2])})
+    extra += via_host
     ops += rng.shuffle(extra) if rng.chance(1, 3) else extra
     for n in t.nodes:
         n.pop("used", None)
     return {"nodes": t.nodes, "links": t.links, "ops": ops, "notes": notes, "icmp_ident_zero": rng.chance(1, 10),
-            "consistent": routing in ("static", "default", "mixed", "shadowed", "none")}
+            "consistent": routing in ("static", "default", "mixed", "shadowed", "none") and not notes.get("gw_is_host")}
 
 
 # ------------------------------------------------------------------------------------------ model side
@@ -290,6 +307,7 @@ def model_lines(case: dict) -> Tuple[List[str], List[int]]:
                 lines.append(f"defroute {n} {nd['default']}")
     for a, i, b, j in case["links"]:
         lines.append(f"link {a} {i} {b} {j}")
+    lines.append("goodstate")
     op_pos = []
     for op in case["ops"]:
         op_pos.append(len(lines))
